@@ -40,6 +40,9 @@ var smtpCodes = []struct {
 }{
 	{451, [3]int{4, 0, 0}}, {450, [3]int{4, 7, 1}}, {421, [3]int{4, 4, 2}}, {452, [3]int{4, 2, 2}}, {454, [3]int{4, 7, 0}},
 	{550, [3]int{5, 7, 1}}, {554, [3]int{5, 0, 0}}, {552, [3]int{5, 3, 4}}, {501, [3]int{5, 1, 8}}, {535, [3]int{5, 7, 8}}, {523, [3]int{5, 7, 10}},
+	// a positive reply the SMTP client did not expect at that point ("252 cannot VRFY user" to the end of DATA) is a
+	// failure for the caller, and one that nothing marks temporary
+	{252, [3]int{2, 5, 0}},
 }
 
 var messages = []string{
